@@ -516,6 +516,36 @@ class _Ops:
                 st, r = self.with_cwd(cwd, lambda: self.guarded(call))
             finally:
                 Path.write_bytes = orig
+        elif fault and suffix_of(name) in NIFTI_FAMILY and entry != "Image.sitk+WriteImage" and entry != "FlowField.sitk+WriteImage":
+            # nibabel writes through Python file objects (nibabel.openers.Opener): the device runs full after a prefix
+            import nibabel.openers as _nio
+
+            orig_w = _nio.Opener.write
+            budget = [int((expected.nbytes + 352) * float(fault["frac"]))]
+
+            def failing_write(self_op, b):
+                if budget[0] <= 0:
+                    raise OSError(errno.ENOSPC, "injected fault: no space left on device")
+                if len(b) > budget[0]:
+                    self_op.fobj.write(bytes(b)[: budget[0]])
+                    budget[0] = 0
+                    raise OSError(errno.ENOSPC, "injected fault: no space left on device")
+                budget[0] -= len(b)
+                return self_op.fobj.write(b)
+
+            _nio.Opener.write = failing_write
+            try:
+                st, r = self.with_cwd(cwd, lambda: self.guarded(call))
+            finally:
+                _nio.Opener.write = orig_w
+            import gc
+
+            if isinstance(r, BaseException):
+                r.__traceback__ = None  # the frames of the failed writer hold its open file objects
+                r.__context__ = None
+            gc.collect()  # file objects abandoned by the failed writer flush/close now, inside this operation, not at some later collection
+            if st == "ok":
+                fault = None  # the budget was not exhausted: an ordinary, complete write
         else:
             fault = None
             st, r = self.with_cwd(cwd, lambda: self.guarded(call))
@@ -1000,7 +1030,7 @@ class _Gen:
                 else:
                     op["entry"] = rng.weighted([("Image.write", 3), ("write_image", 2), ("batch_item", 1), ("sitk_bridge", 1), ("to_uri", 0.6)])
                 op["layout"] = rng.weighted([("contig", 5)] + [(l, 1) for l in LAYOUTS[1:]])
-                if sc["faults"]["failed_write"] and suffix_of(name) in NATIVE_BYTES and rng.chance(0.25):
+                if sc["faults"]["failed_write"] and (suffix_of(name) in NATIVE_BYTES or (suffix_of(name) in NIFTI_FAMILY and op.get("entry") != "sitk_bridge")) and rng.chance(0.25):
                     op["fault"] = {"frac": rng.round(0.0, 1.0, 2)}
             self.last_written = name
             return op
